@@ -12,10 +12,10 @@ HARNESSES = {
     'K-handles': dict(path='rolling::file_number::verif_kani::k_handles', fn='k_handles', bounded=True, bound='fixed shape: 3 appends over 2 files, truncate position symbolic in 0..=3'),
     'K-hdr': dict(path='frame::header::verif_kani::k_hdr_roundtrip', fn='k_hdr_roundtrip', bounded=False, bound='all 2^56 7-byte headers; loop-free'),
     'K-le': dict(path='frame::header::verif_kani::k_le', fn='k_le', bounded=False, bound='all u16/u32/u64 values; loops bounded by the byte width'),
-    'K-getrange': dict(path='mem::rolling_buffer::verif_kani::k_getrange', fn='k_getrange', bounded=True, bound='ring buffers of <= 4 bytes at every rotation, all RangeBounds kinds with symbolic bounds'),
+    'K-getrange': dict(path='mem::rolling_buffer::verif_kani::k_getrange', fn='k_getrange', bounded=True, bound='ring buffers of <= 3 bytes (capacity 4) at every rotation (0..=3), all RangeBounds kinds with symbolic bounds'),
     'K-p2i': dict(path='mem::queue::verif_kani::k_p2i', fn='k_p2i', bounded=True, bound='<= 4 record metas with symbolic strictly increasing positions, symbolic searched position'),
     'K-range': dict(path='mem::queue::verif_kani::k_range', fn='k_range', bounded=True, bound='2 records x 1-byte payloads at symbolic positions, symbolic Included/Excluded/Unbounded bounds'),
-    'K-mrs': dict(path='record::verif_kani::k_mrs', fn='k_mrs', bounded=True, bound='<= 2 payloads of <= 2 bytes each, symbolic first position'),
+    'K-mrs': dict(path='record::verif_kani::k_mrs', fn='k_mrs', bounded=True, bound='<= 2 payloads of <= 1 byte each, symbolic first position'),
 }
 
 RSS_LIMIT_KB = 12 * 1024 * 1024
@@ -89,38 +89,57 @@ def run_harnesses(repo, verif, names):
     return results
 
 
-def cbmc_rss_kb():
-    tot = 0
+def cbmc_pids(sid):
+    out = []
     try:
-        pids = subprocess.run(['pgrep', '-x', 'cbmc'], capture_output=True, text=True).stdout.split()
-        for pid in pids:
-            for line in open('/proc/%s/status' % pid):
-                if line.startswith('VmRSS:'):
-                    tot = max(tot, int(line.split()[1]))
+        for pid in subprocess.run(['pgrep', '-x', 'cbmc'], capture_output=True, text=True).stdout.split():
+            try:
+                if os.getsid(int(pid)) == sid:
+                    out.append(int(pid))
+            except OSError:
+                pass
     except Exception:
         pass
+    return out
+
+
+def cbmc_rss_kb(sid):
+    tot = 0
+    for pid in cbmc_pids(sid):
+        try:
+            for line in open('/proc/%d/status' % pid):
+                if line.startswith('VmRSS:'):
+                    tot = max(tot, int(line.split()[1]))
+        except Exception:
+            pass
     return tot
 
 
 def run_guarded(cmd, cwd, env, timeout):
-    """run cargo kani with a wall-clock limit and an RSS watchdog on cbmc (no swap on this machine)"""
-    import tempfile as _tf
+    """run cargo kani in its own session, with a wall-clock limit and an RSS watchdog on ITS cbmc (no swap here)"""
+    import tempfile as _tf, signal
     outf = _tf.TemporaryFile(mode='w+')
-    p = subprocess.Popen(cmd, cwd=cwd, env=env, stdout=outf, stderr=subprocess.STDOUT, text=True)
+    p = subprocess.Popen(cmd, cwd=cwd, env=env, stdout=outf, stderr=subprocess.STDOUT, text=True, start_new_session=True)
     t0 = time.time()
     timed_out = oom = False
     while p.poll() is None:
         time.sleep(2)
         if time.time() - t0 > timeout:
             timed_out = True
-        elif cbmc_rss_kb() > RSS_LIMIT_KB:
+        elif cbmc_rss_kb(p.pid) > RSS_LIMIT_KB:
             oom = True
         if timed_out or oom:
-            subprocess.run('pgrep -x cbmc | xargs -r kill; pgrep -x kani-driver | xargs -r kill', shell=True)
+            try:
+                os.killpg(p.pid, signal.SIGTERM)
+            except OSError:
+                pass
             try:
                 p.wait(timeout=20)
             except subprocess.TimeoutExpired:
-                p.kill()
+                try:
+                    os.killpg(p.pid, signal.SIGKILL)
+                except OSError:
+                    pass
             break
     outf.seek(0)
     out = outf.read()
